@@ -239,6 +239,10 @@ def check_C02(run, replay=None):
     profiles = [False] if tier == "quick" else [False, True]
     rp = json.load(open(replay)) if replay else None
     seed = run.seed
+    from engines import rt_eng
+    rt_replay = [c for c in (rp.get("cases") or []) if "handlers" in c] if rp else None
+    if rt_replay:        # a replay written by the rt stage below: re-evaluate those apps x histories only
+        rt_eng.rc_stage(run, "C02", 10, replay_cases=rt_replay); return
     if rp and rp.get("rerun"):
         seed, count, max_steps = rp["rerun"]["seed"], rp["rerun"]["count"], rp["rerun"]["max_steps"]
         profiles = [bool(rp["rerun"].get("release"))]
@@ -308,6 +312,11 @@ def check_C02(run, replay=None):
         run.violation("correspondence", {"property": "C02", "what": "request-layer model and implementation differ (error code or end-of-stream mark); C02_ok still holds on every trace seen",
                                          "broken": "correspondence coq/Bridge/Resolve.v vs crux_core", "rerun": rerun_of(c0),
                                          "cases": [dict(shrink_case(c, s), at_step=s) for c, s in bad_model[:8]]}, no_input=True)
+    # second tie: whole apps under a real Core (requests from command tasks, legacy capability requests awaited
+    # alone or joined with a context request inside command tasks) against the reference semantics, in which a
+    # value reaches exactly the continuation of the strand that asked (coq/Rt/RefCoreProps.v)
+    if not rp:
+        rt_eng.rc_stage(run, "C02", 1500 if tier == "quick" else 40000)
     run.cov["rule"] = ("7 hosts (typed Core::resolve on the Command-API app and on the legacy-capability app; Bridge bincode and BridgeWithSerializer json on both; "
                        "a bare Command with explicit poll/abort/drop) x histories of 4..%d steps: events spawning 1..7 tasks (one-shot u64/String requests with chains, "
                        "streams with consumers that end after 1..3 values or never, notifications; few labels so operations are often equal), resolutions of outstanding, "
